@@ -143,6 +143,133 @@ type c05Rec struct {
 // c05Recovery: a random prefix (partitions, loss, duplication, timeouts, up to f crashed replicas),
 // then a synchronous suffix among the live replicas: all pending and new messages are delivered
 // before any timer fires; when nothing is left to deliver all live timers fire.
+// c05Rejoin: replica `lag` is cut off while the others run synchronously for `views` views (views it
+// leads end by timeout, leaving view gaps); then the partition heals, another replica crashes so
+// that the rejoining replica is needed for every quorum, and the live replicas run synchronously.
+func c05Rejoin(cons string, n int, seed int64, views int, mode string) (*c05Rec, error) {
+	rng := newC05Rng(seed)
+	lagID := hotstuff.ID(1 + rng(n))
+	crashID := hotstuff.ID(1 + rng(n))
+	for crashID == lagID {
+		crashID = hotstuff.ID(1 + rng(n))
+	}
+	all := make([]hotstuff.ID, n)
+	for i := range all {
+		all[i] = hotstuff.ID(i + 1)
+	}
+	var pool []hotstuff.ID
+	for _, id := range all {
+		if id != crashID {
+			pool = append(pool, id)
+		}
+	}
+	spec := wSpec{consensus: cons, n: n, seed: seed}
+	spec.leaders = append(c05Leaders("roundrobin", n, views+2, rng, all), c05Leaders(mode, n, 400, rng, pool)...)
+	w, err := newWorld(spec)
+	if err != nil {
+		return nil, err
+	}
+	h := newC01Hist(w, spec)
+	var live, others []*wNode
+	for _, id := range w.order {
+		nd := w.nodes[id]
+		if nd.id.ReplicaID != crashID {
+			live = append(live, nd)
+		}
+		if nd.id.ReplicaID != lagID {
+			others = append(others, nd)
+		}
+		w.partition[id] = 0
+	}
+	w.partition[NodeID{ReplicaID: lagID}] = 1
+	w.start()
+	for _, id := range w.order {
+		h.observe(w.nodes[id])
+	}
+	// phase 1: the others run until they reach view `views`
+	for round := 0; round < 40*views; round++ {
+		maxv := hotstuff.View(0)
+		for _, nd := range others {
+			if nd.viewStates.View() > maxv {
+				maxv = nd.viewStates.View()
+			}
+		}
+		if int(maxv) > views {
+			break
+		}
+		if !h.deliverOne(nil) {
+			for _, nd := range others {
+				nd.eventLoop.AddEvent(hotstuff.TimeoutEvent{View: nd.viewStates.View()})
+				w.drain(nd)
+				h.observe(nd)
+			}
+		}
+	}
+	// phase 2: heal, crash one replica, synchronous suffix
+	w.partition[NodeID{ReplicaID: lagID}] = 0
+	for _, nd := range w.byID[crashID] {
+		w.crashed[nd.id] = true
+	}
+	res := &c05Rec{hist: h, crashed: []hotstuff.ID{crashID}, newCommits: map[hotstuff.ID]int{}}
+	c05Suffix(h, live, cons, res)
+	return res, nil
+}
+
+// c05Suffix runs the synchronous suffix among the live replicas and evaluates the oracle.
+func c05Suffix(h *c01Hist, live []*wNode, cons string, res *c05Rec) {
+	w := h.w
+	base := map[NodeID]int{}
+	minV, maxV := hotstuff.View(1<<62), hotstuff.View(0)
+	for _, nd := range live {
+		base[nd.id] = len(nd.commits)
+		res.prefixCommits += len(nd.commits)
+		v := nd.viewStates.View()
+		if v < minV {
+			minV = v
+		}
+		if v > maxV {
+			maxV = v
+		}
+	}
+	res.spread = int(maxV - minV)
+	c := c05ChainLen(cons)
+	bound := res.spread + 4*c + 6
+	if bound > 60 {
+		bound = 60
+	}
+	done := func() bool {
+		for _, nd := range live {
+			if len(nd.commits) <= base[nd.id] {
+				return false
+			}
+		}
+		return true
+	}
+	for res.rounds = 0; res.rounds < bound && !done(); res.rounds++ {
+		for i := 0; i < 1200 && !done() && h.deliverOne(nil); i++ {
+		}
+		if done() {
+			break
+		}
+		for _, nd := range live {
+			nd.eventLoop.AddEvent(hotstuff.TimeoutEvent{View: nd.viewStates.View()})
+			w.drain(nd)
+			h.observe(nd)
+		}
+	}
+	for _, nd := range live {
+		res.newCommits[nd.id.ReplicaID] = len(nd.commits) - base[nd.id]
+	}
+	if !done() {
+		res.oracle = "liveness:no-commit-after-synchrony"
+		var vs []string
+		for _, nd := range live {
+			vs = append(vs, fmt.Sprintf("%d:view=%d,new=%d", nd.id.ReplicaID, nd.viewStates.View(), len(nd.commits)-base[nd.id]))
+		}
+		res.detail = fmt.Sprintf("after %d synchronous rounds (bound %d = spread %d + 4*%d + 6) not every live replica committed a new block: %s", res.rounds, bound, res.spread, c, strings.Join(vs, " "))
+	}
+}
+
 func c05Recovery(cons string, n int, seed int64, prefixSteps int) (*c05Rec, error) {
 	rng := newC05Rng(seed)
 	f := (n - 1) / 3
@@ -258,55 +385,7 @@ func c05Recovery(cons string, n int, seed int64, prefixSteps int) (*c05Rec, erro
 		w.partition[id] = 0
 	}
 	res := &c05Rec{hist: h, crashed: crashed, newCommits: map[hotstuff.ID]int{}}
-	base := map[NodeID]int{}
-	minV, maxV := hotstuff.View(1<<62), hotstuff.View(0)
-	for _, nd := range live {
-		base[nd.id] = len(nd.commits)
-		res.prefixCommits += len(nd.commits)
-		v := nd.viewStates.View()
-		if v < minV {
-			minV = v
-		}
-		if v > maxV {
-			maxV = v
-		}
-	}
-	res.spread = int(maxV - minV)
-	c := c05ChainLen(cons)
-	bound := res.spread + 4*c + 6
-	done := func() bool {
-		for _, nd := range live {
-			if len(nd.commits) <= base[nd.id] {
-				return false
-			}
-		}
-		return true
-	}
-	for res.rounds = 0; res.rounds < bound && !done(); res.rounds++ {
-		// deliver until quiescent or until everybody committed something new; the chain keeps
-		// growing while leaders have commands, so cap the deliveries of one round
-		for i := 0; i < 4000 && !done() && h.deliverOne(nil); i++ {
-		}
-		if done() {
-			break
-		}
-		for _, nd := range live {
-			nd.eventLoop.AddEvent(hotstuff.TimeoutEvent{View: nd.viewStates.View()})
-			w.drain(nd)
-			h.observe(nd)
-		}
-	}
-	for _, nd := range live {
-		res.newCommits[nd.id.ReplicaID] = len(nd.commits) - base[nd.id]
-	}
-	if !done() {
-		res.oracle = "liveness:no-commit-after-synchrony"
-		var vs []string
-		for _, nd := range live {
-			vs = append(vs, fmt.Sprintf("%d:view=%d,new=%d", nd.id.ReplicaID, nd.viewStates.View(), len(nd.commits)-base[nd.id]))
-		}
-		res.detail = fmt.Sprintf("after %d synchronous rounds (bound %d = spread %d + 4*%d + 6) not every live replica committed a new block: %s", res.rounds, bound, res.spread, c, strings.Join(vs, " "))
-	}
+	c05Suffix(h, live, cons, res)
 	return res, nil
 }
 
@@ -396,6 +475,36 @@ func TestVerifC05(t *testing.T) {
 				m2[a] = b
 			}
 			emitHist(cons, n, res.hist, m2)
+		}
+	}
+	// 3. rejoin: one replica cut off for several views, then needed for every quorum
+	for _, cons := range []string{"chainedhotstuff", "simplehotstuff"} {
+		for _, n := range []int{4, 7} {
+			for _, mode := range []string{"fixed", "roundrobin", "scripted"} {
+				for _, views := range []int{6, 12, v.Pick(20, 40)} {
+					for rep := 0; rep < v.Pick(2, 8); rep++ {
+						seed := v.rng.Int63()
+						res, err := c05Rejoin(cons, n, seed, views, mode)
+						if err != nil {
+							t.Fatalf("world: %v", err)
+						}
+						meta := map[string]any{"kind": "rejoin", "consensus": cons, "n": n, "world_seed": seed, "isolated_views": views, "leaders": mode,
+							"crashed": res.crashed, "view_spread": res.spread, "rounds": res.rounds, "new_commits": res.newCommits}
+						v.Seen(fmt.Sprintf("rejoin/%s/%d/%d", cons, n, seed), true, meta)
+						v.Count("rejoin_" + cons)
+						if res.oracle != "" {
+							v.Oracle(false, res.oracle+":"+cons, res.detail, meta)
+						} else {
+							v.Oracle(true, "", "", nil)
+						}
+						m2 := map[string]any{}
+						for a, b := range meta {
+							m2[a] = b
+						}
+						emitHist(cons, n, res.hist, m2)
+					}
+				}
+			}
 		}
 	}
 	v.Close("fault-free synchronous runs (3 rulesets x n in {4,7} x fixed/round-robin/scripted leaders x run lengths) and random partition/loss/crash prefixes followed by a synchronous suffix among the live replicas; non-trivial = at least 4 views / 4 honest votes; distinct by configuration and seed")
